@@ -259,10 +259,12 @@ class World:
         f = z3.Function(f"{name}/{n}", *dom, smt.Val)
         fr = z3.Function(f"{name}_raises/{n}", *dom, z3.BoolSort())
         fe = z3.Function(f"{name}_exc/{n}", *dom, smt.Val)
-        self.events.append(("cb", name, tuple(ts)))
+        side = getattr(self, "side", "impl")
+        self.events.append(("cb", name, tuple(ts), side))
         if n == 0:
-            # nullary: each call may differ (factories): index by call count
-            k = sum(1 for e in self.events if e[0] == "cb" and e[1] == name)
+            # nullary: each call may differ (factories): index by call count - counted separately for the real code and
+            # for the spec, so that the k-th call of either side is the same event
+            k = sum(1 for e in self.events if e[0] == "cb" and e[1] == name and e[3] == side)
             idx = z3.IntVal(k)
             f = z3.Function(f"{name}/k", z3.IntSort(), smt.Val)
             fr = z3.Function(f"{name}_raises/k", z3.IntSort(), z3.BoolSort())
